@@ -157,6 +157,95 @@ def tor_value(terms):
     return math.fsum(((-1) ** s) * math.exp(float(q) / 2) / math.sqrt(float(d)) for s, d, q in terms)
 
 
+def compositions_upto(d, total):
+    """all vectors of d non-negative integers with sum <= total"""
+    if d == 0:
+        return [()]
+    out = []
+    for x in range(total + 1):
+        for rest in compositions_upto(d - 1, total - x):
+            out.append((x,) + rest)
+    return out
+
+
+def check_integer_bookkeeping(chk, impl, mo_cases, kept_cases, corr_broken, header):
+    """exact tie of utils.match_occupation_numbers / get_kept_edges with C04/HafModel.v, and the
+    property stated directly on the implementation (incidences reproduce the occupation vector,
+    the kept-edge vectors are every sub-multiset exactly once)"""
+    from common import coq_eval_parallel
+
+    def nl(v):
+        return "[" + "; ".join(str(int(x)) for x in v) + "]"
+    imports = header + ("From PV Require Import Base.CasesLib C04.PermModel C04.HafModel.\n"
+                        "Close Scope Z_scope.\nOpen Scope nat_scope.\n"
+                        "Definition nl_eqb := list_eqb Nat.eqb.\n"
+                        "Definition ok (x : list nat * list nat * list nat) : bool :=\n"
+                        "  let '(occ, reps, idx) := x in\n"
+                        "  match match_occupation_numbers occ with\n"
+                        "  | MoOk es _ => nl_eqb (mo_reps es) reps && nl_eqb (mo_indices es) idx\n"
+                        "  | _ => false end.\n"
+                        "Definition okk (x : list nat * list (list nat)) : bool :=\n"
+                        "  let '(reps, ks) := x in\n"
+                        "  list_eqb nl_eqb (map (get_kept_edges reps) (seq 0 (fold_right Nat.mul 1 (map S reps)))) ks.\n")
+    bad_impl = 0
+    items = []
+    for occ, r in zip(mo_cases, impl["mo"]):
+        if "err" in r:
+            chk.violation("C04:match_occupation_numbers:exception", r["err"][:120], {"occupation_numbers": occ})
+            items.append("(%s, [], [])" % nl(occ))
+            continue
+        items.append("(%s, %s, %s)" % (nl(occ), nl(r["reps"]), nl(r["idx"])))
+        # direct statement: incidences (+ at most one unmatched particle) give back the occupation
+        inc = [0] * len(occ)
+        for k, rep in enumerate(r["reps"]):
+            inc[r["idx"][2 * k]] += rep
+            inc[r["idx"][2 * k + 1]] += rep
+        rest = [o - i for o, i in zip(occ, inc)]
+        if min(rest, default=0) < 0 or sum(rest) != sum(occ) % 2 or any(x <= 0 for x in r["reps"][:-1] if len(occ) > 1):
+            bad_impl += 1
+            chk.violation("C04:match_occupation_numbers:incidence", "the edges do not reproduce the occupation numbers",
+                          {"occupation_numbers": occ, "edge_reps": r["reps"], "edge_indices": r["idx"]})
+    kitems = []
+    for reps, r in zip(kept_cases, impl["kept"]):
+        if isinstance(r, dict):
+            chk.violation("C04:get_kept_edges:exception", r["err"][:120], {"edge_reps": reps})
+            continue
+        kitems.append("(%s, [%s])" % (nl(reps), "; ".join(nl(k) for k in r)))
+        import itertools
+        want = sorted(itertools.product(*[range(x + 1) for x in reps]))
+        if sorted(tuple(k) for k in r) != want:
+            chk.violation("C04:get_kept_edges:enumeration", "the kept-edge vectors are not every sub-multiset exactly once",
+                          {"edge_reps": reps})
+    nch = 4
+    bodies = []
+    for k in range(nch):
+        bodies.append(imports + "Definition cases := [%s].\nEval vm_compute in map Z.of_nat (mismatches_nat ok cases).\n"
+                      % ";\n".join(items[k::nch]))
+    bodies.append(imports + "Definition kcases := [%s].\nEval vm_compute in map Z.of_nat (mismatches_nat okk kcases).\n" % ";\n".join(kitems))
+    mm = ("Fixpoint mm_from {X} (f : X -> bool) (i : nat) (l : list X) : list nat :=\n"
+          "  match l with [] => [] | a :: r => if f a then mm_from f (S i) r else i :: mm_from f (S i) r end.\n"
+          "Definition mismatches_nat {X} (f : X -> bool) (l : list X) := mm_from f 0 l.\n")
+    bodies = [b.replace("Definition nl_eqb", mm + "Definition nl_eqb", 1) for b in bodies]
+    outs = coq_eval_parallel("c04_mo", bodies, timeout=1200, jobs=4)
+    import re
+    n_bad = 0
+    for k, o in enumerate(outs):
+        m = re.search(r"=\s*(\[[^:]*\]|nil)\s*:\s*list Z", o, re.S)
+        idxs = [int(x) for x in re.findall(r"\d+", m.group(1).replace("%Z", ""))] if m else [-1]
+        for t in idxs:
+            n_bad += 1
+            if k < nch:
+                j = k + t * nch if t >= 0 else -1
+                corr_broken.append("match_occupation_numbers: model != implementation at occupation %s" % (mo_cases[j] if j >= 0 else "?"))
+            else:
+                corr_broken.append("get_kept_edges: model != implementation at edge_reps %s" % (kept_cases[t] if t >= 0 else "?"))
+    chk.stream("hafnian reduction bookkeeping: utils.match_occupation_numbers on every occupation vector with total <= 8 on <= 6 modes and "
+               "utils.get_kept_edges on every index of every repetition vector with total <= 4 on <= 5 edges, exact vs C04/HafModel.v",
+               len(mo_cases) + sum(len(r) for r in impl["kept"] if not isinstance(r, dict)),
+               sum(1 for o in mo_cases if sum(o) >= 2 and len(o) >= 2), exhaustive=True,
+               samples=[{"occupation_numbers": mo_cases[-7], "edge_reps": impl["mo"][-7].get("reps"), "edge_indices": impl["mo"][-7].get("idx")}])
+
+
 # ------------------------------------------------------------------ generators
 def sym_gauss(rng, n, real_only=False):
     M = [[[0, 0] for _ in range(n)] for _ in range(n)]
